@@ -129,6 +129,11 @@ def run_case(c):
         kw = {"local_faces": np.array(c["faces"])} if k == "subset" else {}
         lines = intersections.mesh_plane(m, n, org, **kw)
         o["nlines"] = len(lines)
+        if k == "section" and len(m.faces) <= 400:
+            l2, idx = intersections.mesh_plane(m, n, org, return_faces=True)
+            o["seg_faces"] = [int(i) for i in idx]
+            o["segs"] = np.array(l2).tolist()
+            o["plane"] = [n.tolist(), org.tolist()]
         if len(lines):
             pts = lines.reshape(-1, 3)
             o["off_plane"] = float(np.abs(np.dot(pts - org, nn)).max())
@@ -180,6 +185,11 @@ def run_case(c):
         o["onplane_area"] = float(m.area_faces[on[m.faces].all(axis=1)].sum())
         o["general"] = bool(not on.any())
         o["cuts"] = bool((d > 1e-8).any() and (d < -1e-8).any())
+        if len(m.faces) <= 400:
+            # the raw slicer on the un-normalised plane, for the Lean model of the pieces
+            v2, f2, _ = intersections.slice_faces_plane(np.array(m.vertices), np.array(m.faces), n, org)
+            o["slice_tris"] = np.array(v2)[np.array(f2)].tolist() if len(f2) else []
+            o["plane"] = [n.tolist(), org.tolist()]
         if c["cap"] and m.is_watertight:
             cp, cn = m.slice_plane(org, n, cap=True), m.slice_plane(org, -n, cap=True)
             o["vol_pos"] = 0.0 if cp is None or len(cp.faces) == 0 else float(cp.volume)
@@ -271,16 +281,68 @@ def oracle(c, o):
     return None
 
 
+def _q(x):
+    n, d = float(x).as_integer_ratio()
+    return [n, d]
+
+
 def model_request(c, o):
-    if c["kind"] != "pattern":
-        return None
-    return {"p": "C11", "op": "pattern", "signs": c["signs"]}
+    if c["kind"] == "pattern":
+        return {"p": "C11", "op": "pattern", "signs": c["signs"]}
+    if c["kind"] == "slice" and "slice_tris" in o:
+        import trimesh
+        T = np.array(meshes()[c["mesh"]].triangles, dtype=np.float64)
+        return {"p": "C11", "op": "slice", "normal": [_q(x) for x in o["plane"][0]], "origin": [_q(x) for x in o["plane"][1]],
+                "tol": _q(trimesh.tol.merge), "tris": [[[_q(x) for x in p] for p in t] for t in T]}
+    if c["kind"] == "section" and "segs" in o:
+        import trimesh
+        T = np.array(meshes()[c["mesh"]].triangles, dtype=np.float64)
+        return {"p": "C11", "op": "section", "normal": [_q(x) for x in o["plane"][0]], "origin": [_q(x) for x in o["plane"][1]],
+                "tol": _q(trimesh.tol.merge), "tris": [[[_q(x) for x in p] for p in t] for t in T]}
+    return None
 
 
 def compare(c, o, m):
     if "err" in m:
         return "model error: " + str(m["err"])
     if "err" in o:
+        return None
+    if c["kind"] == "slice":
+        from fractions import Fraction
+        f = lambda q: float(Fraction(q[0], q[1]))  # noqa
+
+        def canon(t):
+            # cyclic rotation to the smallest corner: keeps the orientation
+            t = [tuple(round(x, 9) + 0.0 for x in p) for p in t]
+            k = t.index(min(t))
+            return tuple(t[k:] + t[:k])
+        if any(p == "in_plane" for p in m["pieces"]):
+            return None        # faces lying in the plane are decided by their normal in the code
+        want = sorted(canon([[f(x) for x in p] for p in t]) for ps in m["pieces"] for t in ps)
+        got = sorted(canon(t) for t in o["slice_tris"])
+        if want != got:
+            extra = [t for t in got if t not in want][:1]
+            miss = [t for t in want if t not in got][:1]
+            return f"slice pieces differ from the model: {len(got)} vs {len(want)} triangles, e.g. code-only {extra} model-only {miss}"
+        return None
+    if c["kind"] == "section":
+        from fractions import Fraction
+        f = lambda q: float(Fraction(q[0], q[1]))  # noqa
+        impl = {}
+        for i, sg in zip(o["seg_faces"], o["segs"]):
+            impl.setdefault(i, []).append(sg)
+        for i, ms in enumerate(m["segments"]):
+            got = impl.get(i, [])
+            if ms is None:
+                if got:
+                    return f"face {i}: the code emits a segment, the model's case table none"
+                continue
+            if len(got) != 1:
+                return f"face {i}: the model emits one segment, the code {len(got)}"
+            a = sorted(tuple(f(x) for x in p) for p in ms)
+            b = sorted(tuple(p) for p in got[0])
+            if np.abs(np.array(a) - np.array(b)).max() > 1e-9 * max(1.0, np.abs(np.array(a)).max()):
+                return f"face {i}: segment endpoints differ: model {a} code {b}"
         return None
     if m["segments"] != o["nlines"]:
         return f"mesh_plane on signs {c['signs']}: model emits {m['segments']} segment(s), code {o['nlines']}"
